@@ -28,6 +28,7 @@ def run(rep, prog, tier):
     merged_cursor(rep, prog, "C02-R7")
     r8(rep, prog)
     r9(rep, prog)
+    r10(rep, prog)
     rep.rule("C02-R6", "an accepted batch is indexed completely: in index_documents the loop over one document group (the adds of one IndexWriter::run batch, already stamped and acknowledged) is left only when its iterator is exhausted or with an error; a `break` out of it on an Ok path drops acknowledged adds")
     rule_loop_exhausted(rep, prog, "C02-R6", I + "index_writer::index_documents", {I + "segment_writer::SegmentWriter::add_document"}, "the documents of one group")
 
@@ -59,6 +60,37 @@ def r8(rep, prog):
     rep.check(bool(on_commit), R, "IndexWriter::committed_opstamp is updated on the commit path", "written by %s" % [short(w) for w in on_commit],
               "the field IndexWriter::committed_opstamp is written only by %s and by nothing that commit reaches: after any number of successful commits `commit_opstamp()` still reports the commit that was "
               "current when the writer was created, and delete_all_documents() rewinds the opstamp generator to that stale value" % sorted(short(w) for w in writers), site=prog.bodies[entries[0]].span)
+
+
+def r10(rep, prog):
+    """what a segment-updater task publishes as the commit is read inside the task"""
+    R = "C02-R10"
+    rep.rule(R, "the active meta is read where it is written: commits and end-of-merge republications are serialised as tasks of the segment-updater thread; a task that republishes the current commit (end_merge: same opstamp and payload, new segment list) must read that commit with load_meta() inside the task. A value read from load_meta() by the caller and carried into the closure handed to schedule_task is a snapshot taken on another thread: a commit queued in between is then overwritten with the older opstamp and payload. Rule: no capture of a closure passed to SegmentUpdater::schedule_task derives from SegmentUpdater::load_meta")
+    SCHED = prog.names(r"^tantivy::indexer::segment_updater::SegmentUpdater::schedule_task(::<.*>)?$")
+    LOAD = prog.names(r"^tantivy::indexer::segment_updater::SegmentUpdater::load_meta$")
+    n = 0
+    inner = 0
+    for b in prog.bodies.values():
+        if not b.span.startswith("src/indexer/segment_updater.rs") or b.kind in ("const", "static", "promoted"):
+            continue
+        for bi, t in b.calls():
+            f = t.get("res") or t.get("f") or ""
+            if f not in SCHED and (t.get("f") or "") not in SCHED:
+                continue
+            n += 1
+            cl = op_local(t["args"][1]) if len(t["args"]) > 1 else None
+            lv = provenance(b, cl) if cl is not None else set()
+            stale = sorted({x[1] for x in lv if x[0] == "call" and x[1] in LOAD})
+            rep.check(not stale, R, "task scheduled by %s captures no load_meta() snapshot" % short(b.id), "captures: %s" % sorted({x[0] for x in lv}),
+                      "`%s` reads the active meta with load_meta() on the calling thread and carries the value into the task it schedules on the segment-updater thread: by the time the task runs, a later commit may have "
+                      "been published, and the task republishes the older opstamp / payload over it (the metadata then report a commit older than the one commit() returned; a re-opened writer re-issues its opstamps)" % b.id,
+                      site=site(b, bi))
+    for fid, b in prog.bodies.items():
+        if fid.startswith("tantivy::indexer::segment_updater::SegmentUpdater::end_merge::{closure"):
+            inner += len(calls_to(prog, b, LOAD))
+    rep.floor(R, "schedule_task call sites", n, 4)
+    rep.check(inner >= 1, R, "end_merge reads the commit it republishes inside its task", "%d load_meta() call(s) in the end_merge task" % inner,
+              "the end_merge task no longer reads the active meta itself (no load_meta() inside the closure): whatever it republishes was read on another thread")
 
 
 def r9(rep, prog):
